@@ -2206,6 +2206,13 @@ class Builder:
         loop_register: Optional[Union[operand.Register, str]] = None,
     ) -> None:
         """Build commands for looping the code in the specified body."""
+        if loop_register is not None:
+            # A register named by the application has to be free, as for the context
+            # form (`sdk_loop_context`): the loop would otherwise count in a register that
+            # an enclosing loop, or a value of the application, lives in.
+            named_register = self._loop_get_register(loop_register)
+            if self._mem_mgr.is_register_active(named_register):
+                raise ValueError(f"Register {named_register} is already active")
         self._build_cmds_loop_body(body, stop, start, step, loop_register)
 
     def sdk_if_eq(self, op0: T_CValue, op1: T_CValue, body: T_BranchRoutine) -> None:
